@@ -166,3 +166,22 @@ prop('C18', 'p64', 'fault_enumeration',
      'property-based round-trip testing + structured fault enumeration with child-process isolation for attacker-sized counts',
      'generated round trips; truncations exhaustive up to 1 KiB per base stream; count corruptions enumerated from a fixed list',
      'trusted: independent 64-bit codec; RLIMIT_AS semantics', SER_ASSUME, run='^TestC18$')
+
+BSI_ASSUME = ['the BSI reference model is a map column -> math/big.Int maintained by the harness', 'values and comparison constants are kept inside the range the index was created or auto-sized for (documented precondition)',
+              'known findings (KNOWN_FINDINGS.json) are excluded by construction and counted under classes "avoided:*"; their literal inputs are re-run by TestRegress* and reported as KNOWN-FINDING lines while they reproduce']
+
+prop('C19', 'pbsi', 'exploration',
+     'rapid state machine over (index, map column->big.Int), run for roaring64.BSI and BitSliceIndexing.BSI: SetValue, SetBigValue (64, values up to +-9*2^100), SetMany, ClearValues, Retain (64), ParOr of 1-3 separately built indexes on free columns with their own widths and worker counts {0,1,2,5}, Increment/IncrementAll/Add (only while all values are non-negative and in range), '
+     'Clone / NewBSIRetainSet (continue on the copy, originals re-checked at the end), MarshalBinary->UnmarshalBinary, WriteTo->ReadFrom (64), RunOptimize; flavours: auto-sized and fixed NewBSI(max,min) with values inside [min,max]; columns in several chunks/buckets incl. 2^32-1 and (64) up to 2^64-1. '
+     'After every step: ValueExists/GetValue/GetBigValue for every column of the universe (present and absent), GetCardinality, GetValues/GetBigValues with duplicate and missing ids (64), Equals between copy and original (64). Non-trivial = history contains a negative value, a widening, and a copy/serialization step after both; distinct = FNV-64 of the history',
+     T(4, 1500, 16, 20000),
+     'model-based stateful property testing of both BSI implementations against a column->big.Int map',
+     'generated histories compared step by step with a model', 'trusted: map model', BSI_ASSUME, run='^TestC19')
+
+prop('C20', 'pbsi', 'exploration',
+     'rapid draws a stored map (0..12 columns, values from a 4-value pool so that duplicates occur; extremes of the width; single column; empty), flavour (auto / fixed), RunOptimize on/off, a found-set {nil, all, random subset, single column, the existence set} and a worker count from {0,1,2,5,16}; for both implementations: '
+     'CompareValue for 6 random (op, constants) per case with constants = stored values +-1, range edges, clamped to the representable range; BatchEqual (+BatchEqualBig, BatchEqualValues on 64); MinMax/MinMaxBig over non-empty found-sets; Sum/SumBigValues; IntersectAndTranspose and TransposeWithCounts for non-negative values inside the result universe; CompareBSI (64) for LT..GT against a second generated index; '
+     'then a bitmap returned by a query is mutated and the index must be unchanged. Oracle = the predicate / extremum / sum / histogram evaluated on the map restricted to the found-set. Non-trivial = >=3 columns, >=2 distinct values and a proper-subset found-set, or mixed signs; distinct = FNV-64 of (map, found-set, workers)',
+     T(4, 3000, 16, 40000),
+     'property-based differential testing of BSI queries against predicates evaluated on a map model',
+     'generated-input search with an independent model as oracle', 'trusted: map model', BSI_ASSUME, run='^TestC20')
